@@ -4,5 +4,5 @@ PID=$1; shift
 MS=${@:-"m4 m5"}
 for m in $MS; do
   /verif/tools/seed_register.sh $PID $m
-  [ -d /verif/seeded/$PID-$m ] && /verif/tools/seed_run.sh $PID-$m quick | tee -a /verif/seeded/ROUND3.txt
+  [ -d /verif/seeded/$PID-$m ] && /verif/tools/seed_run.sh $PID-$m quick | tee -a /verif/seeded/ROUNDS_3_4.txt
 done
